@@ -440,7 +440,28 @@ func (w *world) adversary(ctx context.Context, netA *simnet.Net, fhA *simnet.Hos
 		id := msgIDs[verifrt.Intn("a", len(msgIDs))]
 		p1 := fmt.Sprintf("byz-%s-v1", id)
 		p2 := fmt.Sprintf("byz-%s-v2", id)
-		switch verifrt.Intn("a", 9) {
+		switch verifrt.Intn("a", 10) {
+		case 9: // stalled members: a repeated request is caught by a pause of its handler's node that
+			// outlasts the receive timeout; afterwards a conflicting payload is requested under the same id
+			verifrt.Probe("adv:stall-during-repeat")
+			a1, s1 := w.collect(netA, w.session, id, p1, shuffled(others))
+			for _, to := range others {
+				steps := verifrt.Intn("a", 16)
+				netA.Inject(w.ids[w.faulty], w.ids[to], protoSig, frame(&pb.BCastSigRequest{Id: id, Message: a1}), 0)
+				for k := 0; k < steps; k++ {
+					verifrt.Yield()
+				}
+				verifrt.Stall(fmt.Sprintf("n%d", to), 62*time.Second)
+			}
+			verifrt.Sleep(70 * time.Second)
+			a2, s2 := w.collect(netA, w.session, id, p2, shuffled(others))
+			for _, to := range others {
+				if verifrt.Intn("a", 2) == 0 {
+					w.sendMsg(netA, to, &pb.BCastMessage{Id: id, Message: a1, Signatures: s1})
+				} else {
+					w.sendMsg(netA, to, &pb.BCastMessage{Id: id, Message: a2, Signatures: s2})
+				}
+			}
 		case 8: // concurrent equivocation: signature requests for two payloads of one id are in flight
 			// at the same time at every member (the once-per-(peer,id) rule must hold under concurrency)
 			verifrt.Probe("adv:concurrent-equivocation")
